@@ -97,7 +97,8 @@ def tee(p):
 FAMILIES = {'tee': tee}
 
 SETS = [['even', 'odd'], ['id', 'even'], ['scan', 'count_r'], ['even', 'last'], ['take1', 'scan'], ['batch2', 'id'], ['rollsum', 'even'],
-        ['even', 'odd', 'id'], ['count_r', 'even', 'scan'], ['last', 'odd', 'batch2'], ['tee_zip', 'odd'], ['tee_cl', 'even']]
+        ['even', 'odd', 'id'], ['count_r', 'even', 'scan'], ['last', 'odd', 'batch2'], ['tee_zip', 'odd'], ['tee_cl', 'even'],
+        ['scan', 'take1'], ['id', 'count_r', 'take1']]
 SETS4 = [['even', 'odd', 'id', 'count_r'], ['scan', 'even', 'last', 'odd'], ['take1', 'batch2', 'odd', 'inc']]
 
 
